@@ -731,6 +731,23 @@ fn field_map(pairs: &[(&str, u64)]) -> Value {
     Value::Object(m)
 }
 
+/// A header view is a window on the first bytes of whatever backs it: with a backing buffer of exactly the view's
+/// length the public constructor is used, with a longer one the view is laid over the whole buffer (the public
+/// tuple field) - the getters must not look at the extra bytes and the setters must not touch them.
+macro_rules! on_view {
+    ($raw:expr, $n:expr, $exact:expr, $wide:expr, |$h:ident| $body:block) => {
+        if $raw.len() == $n {
+            #[allow(unused_mut)]
+            let mut $h = $exact;
+            $body
+        } else {
+            #[allow(unused_mut)]
+            let mut $h = $wide;
+            $body
+        }
+    };
+}
+
 fn op_header(op: &str, cmd: &Value, ev: &mut Map<String, Value>) {
     let view = st(cmd, "view").to_string();
     let r = catch_unwind(AssertUnwindSafe(|| -> Map<String, Value> {
@@ -811,7 +828,7 @@ fn op_header(op: &str, cmd: &Value, ev: &mut Map<String, Value>) {
                 let v8 = || val.as_u64().unwrap_or_else(|| bad("value")) as u8;
                 match view.as_str() {
                     "smbus" => {
-                        let mut h = MCTPSMBusHeader::new_from_buf(arr4(&cmd["raw"]));
+                        on_view!(raw, 4, MCTPSMBusHeader::new_from_buf(arr4(&cmd["raw"])), MCTPSMBusHeader(raw.clone()), |h| {
                         if set {
                             match fname.as_str() {
                                 "dest_read_write" => h.set_dest_read_write(v8()),
@@ -835,9 +852,10 @@ fn op_header(op: &str, cmd: &Value, ev: &mut Map<String, Value>) {
                                 ("source_slave_addr", h.source_slave_addr() as u64),
                             ]),
                         );
+                        });
                     }
                     "transport" => {
-                        let mut h = MCTPTransportHeader(arr4(&cmd["raw"]));
+                        on_view!(raw, 4, MCTPTransportHeader(arr4(&cmd["raw"])), MCTPTransportHeader(raw.clone()), |h| {
                         if set {
                             match fname.as_str() {
                                 "hdr_version" => h.set_hdr_version(v8()),
@@ -865,9 +883,10 @@ fn op_header(op: &str, cmd: &Value, ev: &mut Map<String, Value>) {
                                 ("msg_tag", h.msg_tag() as u64),
                             ]),
                         );
+                        });
                     }
                     "body" => {
-                        let mut h = MCTPMessageBodyHeader([raw[0]]);
+                        on_view!(raw, 1, MCTPMessageBodyHeader([raw[0]]), MCTPMessageBodyHeader(raw.clone()), |h| {
                         if set {
                             match fname.as_str() {
                                 "msg_type" => h.set_msg_type(v8()),
@@ -879,9 +898,10 @@ fn op_header(op: &str, cmd: &Value, ev: &mut Map<String, Value>) {
                             "fields".into(),
                             field_map(&[("msg_type", h.msg_type() as u64)]),
                         );
+                        });
                     }
                     "control" => {
-                        let mut h = MCTPControlMessageHeader::new_from_buf([raw[0], raw[1]]);
+                        on_view!(raw, 2, MCTPControlMessageHeader::new_from_buf([raw[0], raw[1]]), MCTPControlMessageHeader(raw.clone()), |h| {
                         if set {
                             match fname.as_str() {
                                 "rq" => h.set_rq(v8()),
@@ -901,9 +921,10 @@ fn op_header(op: &str, cmd: &Value, ev: &mut Map<String, Value>) {
                                 ("command_code", h.command_code() as u64),
                             ]),
                         );
+                        });
                     }
                     "routing" => {
-                        let mut h = SMBusRoutingInformationUpdateEntry::new_from_buf(arr4(&cmd["raw"]));
+                        on_view!(raw, 4, SMBusRoutingInformationUpdateEntry::new_from_buf(arr4(&cmd["raw"])), SMBusRoutingInformationUpdateEntry(raw.clone()), |h| {
                         if set {
                             match fname.as_str() {
                                 "entry_type" => h.set_entry_type(v8()),
@@ -923,24 +944,27 @@ fn op_header(op: &str, cmd: &Value, ev: &mut Map<String, Value>) {
                                 ("physical_address", h.physical_address() as u64),
                             ]),
                         );
+                        });
                     }
                     // the two vendor-id views: values travel as big-endian byte arrays
                     "pci" => {
-                        let mut h = PCIMessageFormat::new_from_buf([raw[0], raw[1]]);
+                        on_view!(raw, 2, PCIMessageFormat::new_from_buf([raw[0], raw[1]]), PCIMessageFormat(raw.clone()), |h| {
                         if set {
                             let v = bytes(val);
                             h.set_vendor_id(u16::from_be_bytes([v[0], v[1]]));
                             out.insert("raw_after".into(), jb(&h.0));
                         }
                         out.insert("wide".into(), jb(&h.vendor_id().to_be_bytes()));
+                        });
                     }
                     "iana" => {
-                        let mut h = IANAMessageFormat::new_from_buf(arr4(&cmd["raw"]));
+                        on_view!(raw, 4, IANAMessageFormat::new_from_buf(arr4(&cmd["raw"])), IANAMessageFormat(raw.clone()), |h| {
                         if set {
                             h.set_vendor_id(u32::from_be_bytes(arr4(val)));
                             out.insert("raw_after".into(), jb(&h.0));
                         }
                         out.insert("wide".into(), jb(&h.vendor_id().to_be_bytes()));
+                        });
                     }
                     _ => bad("view"),
                 }
